@@ -185,7 +185,7 @@ theorem row_lt_of_mem {g : Mat} (h : ∀ r ∈ g, r < 2 ^ 64) (i : Nat) : row g 
 a well-formed state, and leaves a well-formed state -/
 theorem lanczosStep_release_ok {k : Nat} {cols : List (List Nat)} (hM : MatOK k cols) {ay : List Nat}
     (hay : BlockOK cols.length ay) {st : LState} (h : WFL cols.length st) :
-    (∃ st', lanczosStep false (qsOptimize k cols) ay st = .finished st') ∨
+    (∃ st', lanczosStep false (qsOptimize k cols) ay st = .finished st' ∧ st'.y = st.y) ∨
     (∃ st' mk, lanczosStep false (qsOptimize k cols) ay st = .continue st' mk ∧ WFL cols.length st') := by
   obtain ⟨wl, hwl, hwlOK⟩ := h.lastW
   obtain ⟨pv, hpv, hpvOK⟩ := h.lastV
@@ -232,7 +232,7 @@ theorem lanczosStep_release_ok {k : Nat} {cols : List (List Nat)} (hM : MatOK k 
     rfl
   rw [hstep]
   by_cases hrk : rk = 0
-  · rw [if_pos hrk]; exact Or.inl ⟨_, rfl⟩
+  · rw [if_pos hrk]; exact Or.inl ⟨_, rfl, rfl⟩
   · rw [if_neg hrk]
     right
     have hmask := rank_masked_of_symmetric false hgw hsym hS
